@@ -19,7 +19,8 @@ from . import common as C
 from . import tlagraph as G
 
 _PROB = {}
-VARIANTS = [dict(), dict(twofreq=True, case="VTI")]
+VARIANTS = [dict(), dict(twofreq=True, case="VTI"), dict(gmode="dict"),
+            dict(twofreq=True, gmode="input")]
 SHARED_KEY = "sharedfiledir"
 
 
@@ -35,6 +36,102 @@ def _replay(job):
         import traceback
         return [(-1, "fatal", f"{type(e).__name__}: {e}\n"
                  f"{traceback.format_exc()}")]
+
+
+_GPROB = {}
+GRID_MODES = ["same", "single", "frequency", "source", "both", "input", "dict"]
+
+
+def _greplay(job):
+    os.environ.setdefault("NUMBA_NUM_THREADS", "1")
+    from . import gridreplay
+    mode, steps, seed = job
+    try:
+        if mode not in _GPROB:
+            _GPROB[mode] = gridreplay.GProblem(mode).prepare()
+        return gridreplay.replay(_GPROB[mode], steps, seed)
+    except Exception as e:  # noqa
+        import traceback
+        return [(-1, "fatal", f"{type(e).__name__}: {e}\n"
+                 f"{traceback.format_exc()}")]
+
+
+def gops_of(steps):
+    out = []
+    for s in steps:
+        la = s["last"]
+        a = [str(la["s"]), str(la["f"])] if la["op"] in ("grid", "model") \
+            else ([la["arg"]] if la["arg"] != "-" else [])
+        out.append(f"{la['op']}({','.join(a)})")
+    return out
+
+
+def grid_part(rep, tier, rng, replay_case=None):
+    """GridCache.tla: the computational-grid caches for every gridding mode
+    (the `options` of C12): exhaustive TLC run, deviation canary, edge cover
+    of the complete graph replayed on real simulations."""
+    if replay_case is not None:
+        jobs = [(replay_case["mode"], replay_case["steps"],
+                 replay_case["seed"])]
+    else:
+        res = C.run_tlc("GridCache", "GridCache.cfg", coverage=True,
+                        timeout=1200)
+        if C.expect_tlc_ok(rep, "GridCache.cfg: all gridding modes, 2 sources "
+                           "x 2 frequencies, complete graph", res, "C12"):
+            C.check_coverage(res, ["GetGrid", "GetModel", "ComputeAll", "Repr",
+                                   "PrintInfo", "Clean", "Fork"], "GridCache")
+        r = C.run_tlc("GridCache", "GridCache_dev.cfg", timeout=600)
+        C.tlc_must_run(r, "GridCache_dev")
+        rep.canary(bool(r.violated))
+        if not r.violated:
+            raise C.MachineryError("TLC did not find the lost-dict-grid "
+                                   "deviation")
+        g, gres = G.dump_graph("GridCache", "GridCache.cfg")
+        rep.cov["grid_graph_states"] = len(g.state)
+        rep.cov["grid_graph_edges"] = g.nedges
+        jobs, left_total = [], 0
+        per_mode = 120 if tier == "quick" else None
+        for u in g.init:
+            mode = g.state[u]["mode"]
+            walks, left = G.greedy_edge_cover(g, rng, 8, budget=per_mode,
+                                              init=u)
+            left_total += left
+            for w in walks:
+                jobs.append((mode, [g.state[e[2]] for e in w],
+                             rng.randrange(10**6)))
+        rep.cov["grid_edges_uncovered"] = left_total
+    with mp.get_context("fork").Pool(C.NCPU) as pool:
+        results = pool.map(_greplay, jobs, chunksize=2)
+    n = 0
+    for (mode, steps, sd), probs in zip(jobs, results):
+        n += len(steps)
+        for i, kind, text in probs:
+            if kind == "fatal":
+                raise C.MachineryError(text)
+            ops = gops_of(steps[:i+1])
+            rep.violation(f"C12:grid:{kind}:{mode}:{'>'.join(ops)}",
+                          f"gridding='{mode}': after {' ; '.join(ops)}: {text}",
+                          {"grid": True, "mode": mode, "steps": steps[:i+1],
+                           "seed": sd})
+    rep.add_traces(len(jobs))
+    rep.cov["grid_replayed_operations"] = n
+    if replay_case is None:
+        # replay canary: a spec state claiming another grid must be flagged
+        import copy
+        for mode, steps, sd in jobs:
+            hit = [i for i, st in enumerate(steps)
+                   if st["last"]["op"] == "grid" and mode == "both"]
+            if hit:
+                c = copy.deepcopy(steps[:hit[0]+1])
+                c[-1]["last"]["ret"]["s"] = 3 - c[-1]["last"]["ret"]["s"]
+                probs = _greplay((mode, c, sd))
+                ok = any(k in ("property", "ret") for _, k, _ in probs)
+                rep.canary(ok)
+                if not ok:
+                    raise C.MachineryError("grid replay canary not detected")
+                break
+        else:
+            raise C.MachineryError("no grid canary could be built")
 
 
 def ops_of(steps):
@@ -159,6 +256,9 @@ def run(tier, replay=None):
     if replay:
         with open(replay) as f:
             case = json.load(f)["case"]
+        if case.get("grid"):
+            grid_part(rep, tier, rng, case)
+            return rep.finish()
         jobs = [(case["variant"], case["file_mode"], case["steps"],
                  case["seed"])]
         meta = [("replay", None)]
@@ -203,6 +303,7 @@ def run(tier, replay=None):
                  "seed": sd})
     if not replay:
         canaries(rep, jobs, rng)
+        grid_part(rep, tier, rng)
     rep.add_traces(len(jobs))
     rep.cov["replayed_operations"] = nsteps
     rep.cov["distinct_op_arg_outcome"] = len(seen_ops)
